@@ -1,5 +1,5 @@
 (* K12b -- theorems about RestoreModel.v *)
-From Coq Require Import List Arith Bool Lia.
+From Coq Require Import List Arith NArith Bool Lia.
 Import ListNotations.
 Require Import Pyrefact.RestoreModel.
 
@@ -94,6 +94,102 @@ Proof.
   destruct (cands origs (n_val nd)); [discriminate |].
   destruct (subset _ _); [discriminate |]. destruct (mem _ _); [discriminate |].
   destruct (n_lit nd); discriminate.
+Qed.
+
+(* ---------------------------------------------------------------------------------------------- *)
+(* T11.13 the spelling written after the prefix adjustment (repair c664901) *)
+Lemma lookup_adj_in : forall adj t p w d,
+  lookup_adj adj t p = Some (w, d) -> exists p', In (t, p', w, d) adj /\ leqb p' p = true.
+Proof.
+  intros adj t p w d H. unfold lookup_adj in H.
+  destruct (find _ adj) as [e |] eqn:F; [| discriminate]. inversion H; subst w d. clear H.
+  apply find_some in F. destruct F as [Hin Hc]. apply andb_true_iff in Hc. destruct Hc as [Ht Hp].
+  apply Nat.eqb_eq in Ht. destruct e as [[[t0 p0] w0] d0]. cbn in *. subst t0.
+  exists p0. split; assumption.
+Qed.
+
+(* [written] is either the most common original spelling itself (same prefix letters), with literal_eval's
+   verdict about that spelling, or an entry of the table of pasted spellings for exactly that spelling *)
+Theorem written_spec : forall origs adj nd c w d,
+  written origs adj nd c = Some (w, d) ->
+  (w = most_common c /\
+   exists o, In o origs /\ o_text (wo o) = w /\ o_val (wo o) = n_val (wn nd) /\ o_lit (wo o) = true /\
+             o_eval o = d /\ mods_of (n_pre nd) = mods_of (o_pre o))
+  \/ (exists p, In (most_common c, p, w, d) adj /\ leqb p (prefix_of (mods_of (n_pre nd))) = true).
+Proof.
+  intros origs adj nd c w d H. unfold written in H.
+  destruct (find _ origs) as [o |] eqn:F; [| discriminate].
+  apply find_some in F. destruct F as [Hin Hc].
+  apply andb_true_iff in Hc. destruct Hc as [Hc Hl]. apply andb_true_iff in Hc. destruct Hc as [Ht Hv].
+  apply Nat.eqb_eq in Ht. apply Nat.eqb_eq in Hv.
+  destruct (mods_eqb (mods_of (n_pre nd)) (mods_of (o_pre o))) eqn:M.
+  - inversion H; subst w d. left. split; [reflexivity |]. exists o. repeat split; try assumption.
+    destruct (mods_of (n_pre nd)) as [[f1 r1] b1]. destruct (mods_of (o_pre o)) as [[f2 r2] b2].
+    cbn in M. apply andb_true_iff in M. destruct M as [M Mb]. apply andb_true_iff in M. destruct M as [Mf Mr].
+    apply Bool.eqb_prop in Mf. apply Bool.eqb_prop in Mr. apply Bool.eqb_prop in Mb. subst. reflexivity.
+  - right. apply lookup_adj_in in H. exact H.
+Qed.
+
+(* a node is overwritten only if its own spelling is a literal of its value, and only with a spelling that
+   literal_eval evaluates to the node's value *)
+Theorem restore_write_node_sound : forall origs news adj nd w,
+  restore_write_node origs news adj nd = Some w ->
+  n_lit (wn nd) = true /\
+  exists c, restore_node (map wo origs) (map wn news) (wn nd) = Some c /\
+            written origs adj nd c = Some (w, Some (n_val (wn nd))).
+Proof.
+  intros origs news adj nd w H. unfold restore_write_node in H.
+  destruct (restore_node (map wo origs) (map wn news) (wn nd)) as [c |] eqn:R; [| discriminate].
+  destruct (written origs adj nd c) as [[w0 [v |]] |] eqn:W; try discriminate.
+  destruct (v =? n_val (wn nd)) eqn:E; [| discriminate]. inversion H; subst w0.
+  apply Nat.eqb_eq in E. subst v.
+  split; [exact (proj1 (restore_node_sound _ _ _ _ R)) |]. exists c. split; [reflexivity | exact W].
+Qed.
+
+Theorem restore_write_sound : forall a origs news adj i w,
+  nth_error (restore_write a origs news adj) i = Some (Some w) ->
+  exists nd, nth_error news i = Some nd /\ restore_write_node origs news adj nd = Some w.
+Proof.
+  intros a origs news adj i w H. unfold restore_write in H.
+  assert (N : forall l j, nth_error (map (fun _ : wnode => @None nat) l) j <> Some (Some w)).
+  { induction l as [| x l IH]; intros [| j] C; cbn in C; try discriminate.
+    exact (IH j C). }
+  destruct news as [| n0 news']; [destruct i; discriminate |].
+  destruct origs as [| o0 origs']; [exfalso; exact (N _ _ H) |].
+  destruct (a || nothing_new (map wo (o0 :: origs')) (map wn (n0 :: news'))); [exfalso; exact (N _ _ H) |].
+  rewrite nth_error_map in H. destruct (nth_error (n0 :: news') i) as [nd |]; [| discriminate].
+  exists nd. split; [reflexivity |]. cbn in H. inversion H. reflexivity.
+Qed.
+
+(* semantic reading: for ANY evaluation [den] of spellings that the verdicts are computed from (o_eval, the
+   table of pasted spellings, n_lit), the spelling written evaluates to what the overwritten one evaluates to *)
+Section DenW.
+Variable den : nat -> option nat.
+Theorem restore_write_same_value : forall origs news adj nd w,
+  (forall o, In o origs -> o_eval o = Some (n_val (wn nd)) -> den (o_text (wo o)) = Some (n_val (wn nd))) ->
+  (forall t p w', In (t, p, w', Some (n_val (wn nd))) adj -> den w' = Some (n_val (wn nd))) ->
+  (n_lit (wn nd) = true -> den (n_text (wn nd)) = Some (n_val (wn nd))) ->
+  restore_write_node origs news adj nd = Some w ->
+  den w = den (n_text (wn nd)).
+Proof.
+  intros origs news adj nd w HO HA HN H.
+  destruct (restore_write_node_sound _ _ _ _ _ H) as [L [c [_ W]]]. rewrite (HN L).
+  destruct (written_spec _ _ _ _ _ _ W) as [[_ [o [Hin [Ht [_ [_ [He _]]]]]]] | [p [Hin _]]].
+  - rewrite <- Ht. exact (HO o Hin He).
+  - exact (HA _ _ _ Hin).
+Qed.
+End DenW.
+
+(* R11.14 (pinned): before repair c664901 the pasted spelling was used unchecked.  value 7 is spelled
+   1 (r'\n', prefix r) twice in the original; the new source spells it 2 ('\\n', no prefix letters); pasting
+   gives spelling 3 ('\n'), which evaluates to another value (8).  The repaired step leaves the node alone. *)
+Theorem old_restore_write_refuted : exists origs news adj nd w v,
+  restore_write_node_unchecked origs news adj nd = Some (w, Some v) /\ v <> n_val (wn nd) /\
+  restore_write_node origs news adj nd = None.
+Proof.
+  exists [mkWO (mkO 7 1 true) [114%N] (Some 7); mkWO (mkO 7 1 true) [114%N] (Some 7)],
+         [mkWN (mkN 7 2 true) []], [(1, [], 3, Some 8)], (mkWN (mkN 7 2 true) []), 3, 8.
+  vm_compute. repeat split. discriminate.
 Qed.
 
 (* T11.11 f-strings: the spelling written is a valid original spelling with the node's unparse key, and the
